@@ -68,14 +68,15 @@ pub mod __private {
 
 // The modules containing error types and other helpers.
 
-#[cfg(feature = "add")]
+// `mul` needs these too: `#[mul(forward)]` on an enum expands like the `add` derives do.
+#[cfg(any(feature = "add", feature = "mul"))]
 mod add;
-#[cfg(feature = "add")]
+#[cfg(any(feature = "add", feature = "mul"))]
 pub use crate::add::{BinaryError, WrongVariantError};
 
-#[cfg(any(feature = "add", feature = "not"))]
+#[cfg(any(feature = "add", feature = "mul", feature = "not"))]
 mod ops;
-#[cfg(any(feature = "add", feature = "not"))]
+#[cfg(any(feature = "add", feature = "mul", feature = "not"))]
 pub use crate::ops::UnitError;
 
 #[cfg(feature = "as_ref")]
